@@ -36,6 +36,8 @@ type Check struct {
 	Outside     []string
 	Assumptions []string
 	Stubs       []string
+	TCQuick     [2]int // thread-trace composition (N threads, M max slots); 0 = none
+	TCThorough  [2]int
 }
 
 var checks = map[string]*Check{}
@@ -188,6 +190,13 @@ func cmdCheck(args []string) int {
 			continue
 		}
 		cr.runHarness(h, !*noNative)
+	}
+	tcCfg := ck.TCQuick
+	if *tier == "thorough" && ck.TCThorough[0] > 0 {
+		tcCfg = ck.TCThorough
+	}
+	if tcCfg[0] > 0 && *only == "" {
+		cr.runTC(id, tcCfg[0], tcCfg[1])
 	}
 	wall := time.Since(t0).Seconds()
 	cr.writeEvidence(wall)
